@@ -95,6 +95,8 @@ class Harness:
 
     @property
     def qualified(self):
+        if self.file.startswith("tests/"):
+            return self.name      # harness in an integration-test crate (cargo kani --tests): its own crate root
         rel = self.file[len("src/"):-3]  # strip src/ and .rs
         parts = rel.split("/")
         if parts[-1] in ("mod", "lib"):
